@@ -322,6 +322,9 @@ func genImportFile(t *tape.Tape, cls string, pkg string) ImportFile {
 			add(fmt.Sprintf("        %s.create();", s))
 		}
 		if mc := by("multi-catch"); len(mc) > 0 {
+			if len(mc) == 1 {
+				mc = append(mc, "IllegalStateException") // a real multi-catch: the import is one alternative of several
+			}
 			add("        try {")
 			add("            helper();")
 			add("        } catch (" + strings.Join(mc, " | ") + " e) {")
@@ -404,6 +407,21 @@ func genImportFile(t *tape.Tape, cls string, pkg string) ImportFile {
 		out.Text = strings.ReplaceAll(out.Text, "\n", "\r\n") // CRLF
 	case 2:
 		out.Text += "\n\n" // trailing blank lines
+	case 3:
+		// mixed line endings: a CRLF checkout with an LF-only head (pasted licence header, generated
+		// package line) or single LF lines in between
+		ls := strings.Split(out.Text, "\n")
+		cut := t.Int(1, 4)
+		every := 0
+		if t.Bool(1, 3) {
+			every = 2 + t.Pick(3)
+		}
+		for i := range ls {
+			if i >= cut && i < len(ls)-1 && (every == 0 || i%every != 0) {
+				ls[i] += "\r"
+			}
+		}
+		out.Text = strings.Join(ls, "\n")
 	}
 	return out
 }
